@@ -489,6 +489,7 @@ pub fn check_raw(c: &RawCase) -> CaseResult {
         let opts = q.to_lexpr();
         let mut reference: Option<Vec<(Pos, Pos)>> = None;
         let mut nodes = 0usize;
+        let mut slice_flat: Vec<(Pos, Pos)> = Vec::new();
         for src in ["str", "slice", "reader", "bufreader"] {
             let mut flat: Vec<(Pos, Pos)> = Vec::new();
             let mut w = RawWalk { input, q, src, nodes: 0 };
@@ -517,10 +518,86 @@ pub fn check_raw(c: &RawCase) -> CaseResult {
                 _ => walk!(lexpr::Parser::from_reader_custom(BufReader::with_capacity(3, Cursor::new(input)), opts)),
             }
             nodes = nodes.max(w.nodes);
+            if src == "slice" {
+                slice_flat = flat.clone();
+            }
             match &reference {
                 None => reference = Some(flat),
                 Some(rf) if *rf != flat => return Err((format!("raw src={} which=differs-between-sources", src), "the spans of the datums read before the first error differ between source kinds".into())),
                 _ => {}
+            }
+        }
+        // a stream that fails once between two top-level datums (right after a
+        // closing delimiter or quote, where no token is in progress) and is
+        // simply read again reports the same spans
+        {
+            struct Once<'a> {
+                data: &'a [u8],
+                pos: usize,
+                at: usize,
+                fired: bool,
+            }
+            impl<'a> std::io::Read for Once<'a> {
+                fn read(&mut self, out: &mut [u8]) -> std::io::Result<usize> {
+                    if self.pos == self.at && !self.fired {
+                        self.fired = true;
+                        return Err(std::io::Error::new(std::io::ErrorKind::WouldBlock, "try again"));
+                    }
+                    match (self.data.get(self.pos), out.first_mut()) {
+                        (Some(b), Some(o)) => {
+                            *o = *b;
+                            self.pos += 1;
+                            Ok(1)
+                        }
+                        _ => Ok(0),
+                    }
+                }
+            }
+            // end offsets of the top-level datums, from the slice walk
+            let mut tops: Vec<usize> = Vec::new();
+            {
+                let mut p = lexpr::Parser::from_slice_custom(input, opts);
+                for _ in 0..input.len() + 2 {
+                    match p.next_datum() {
+                        Ok(Some(d)) => {
+                            let (s0, e) = span_of(d.span());
+                            let (so, eo) = (offset_of(input, s0.0, s0.1), offset_of(input, e.0, e.1));
+                            // only datums that end with their own closing delimiter:
+                            // the reader does not look past it to finish the token
+                            let v = d.value();
+                            let closed = eo > so
+                                && eo <= input.len()
+                                && match input[eo - 1] {
+                                    b')' | b']' => v.is_cons() || v.is_vector() || v.is_bytes() || v.is_null(),
+                                    b'"' => (v.is_string() || v.is_bytes()) && input[so] == b'"',
+                                    _ => false,
+                                };
+                            if closed {
+                                tops.push(eo);
+                            }
+                        }
+                        _ => break,
+                    }
+                }
+            }
+            if let Some(&at) = tops.iter().find(|&&e| e > 0 && e < input.len()) {
+                let mut p = lexpr::Parser::from_reader_custom(Once { data: input, pos: 0, at, fired: false }, opts);
+                let mut flat: Vec<(Pos, Pos)> = Vec::new();
+                let mut io_seen = 0;
+                for _ in 0..input.len() + 4 {
+                    match p.next_datum() {
+                        Ok(Some(d)) => flat_spans(d.as_ref(), &mut flat),
+                        Err(e) if e.is_io() && io_seen == 0 => io_seen += 1,
+                        _ => break,
+                    }
+                }
+                if flat != slice_flat {
+                    let i = flat.iter().zip(slice_flat.iter()).position(|(a, b)| a != b).unwrap_or(flat.len().min(slice_flat.len()));
+                    return Err((
+                        "raw src=reader-after-transient-failure which=differs-from-slice".into(),
+                        format!("after one WouldBlock at offset {} (between two datums) and a retry, span #{} is {:?}, from the slice {:?} ({} vs {} spans)", at, i, flat.get(i), slice_flat.get(i), flat.len(), slice_flat.len()),
+                    ));
+                }
             }
         }
         Ok(nodes)
